@@ -15,7 +15,10 @@ Space: a finite catalogue of small static methods (assembled with gen/dalvik.py,
                        modes and the 13-op long alphabet;  plus hand-written propagation hazards ("special": swap,
                        copy chains, redefinition of a propagated source, a div/rem whose result is unused, and "dead
                        chains": a div/rem (23x, 2addr, lit 0) whose result only feeds 1-2 (thorough 3) dead consumers
-                       -- arithmetic, cast, move, compare -- while an unrelated value is returned)
+                       -- arithmetic, cast, move, compare -- while an unrelated value is returned);  plus "kreuse": one
+                       constant register ({-1,-5,-100000,5,MAX,MIN}, int and long) consumed by two or three
+                       instructions over {add,sub,mul,and,or,xor,shl} x {constant left, right}, results combined
+                       (quick: -100000 and a rotating second constant, xor combiner; thorough: all constants, xor+mul)
   tier C (structure)   if / if-else (javac and dx layouts, merged and separate returns) for each of the 12 if-* ops,
                        cmp-long + if-*z, every 2- and 3-condition short-circuit shape (jump-target enumeration) with
                        and without else, while / do-while / for / nested / break / return-from-loop / continue /
@@ -556,6 +559,75 @@ def tier_b_special(thorough):
                             s.ins(ret_ins("J" if wide else "I"), R.b if not wide else R.a)
                         name = "dead-chain.%s-%s/%s:%s" % (op, ty, enc2, ",".join(seq))
                         P.append(Prog("B:special." + name, "B:special.dead-chain", T + T, T, 8, body))
+    return P
+
+
+KREUSE = [-1, -5, -100000, 5, 0x7fffffff]        # + MIN of the type
+
+
+def tier_b_kreuse(thorough):
+    """A constant held in ONE register and consumed by two (three) different instructions, as left or right operand:
+    t1 = a <op1> K ; t2 = b <op2> K ; return t1 ^ t2   (register propagation hands the same constant to every use).
+    key = B:kreuse.<type>:<first use> ; pid adds the second (third) use, the constant and the combiner."""
+    P = []
+    for ty in ("int", "long"):
+        wide = ty == "long"
+        T = "J" if wide else "I"
+        w = 2 if wide else 1
+        K, T1, T2, RR, CNT = 0, w, 2 * w, 3 * w, 4 * w
+        nloc = 4 * w + (1 if wide else 0)
+        consts = KREUSE + [MINL if wide else MINI]
+        uses = [(op, pos) for op in ("add", "sub", "mul", "and", "or", "xor") for pos in "RL"]
+        uses += [("shl", "L")] if wide else [("shl", "R"), ("shl", "L")]     # a long constant cannot be a shift count
+        cw = "const-wide" if wide else "const"
+        rt = ret_ins(T)
+
+        def emit_use(s, R, use, dst, x, wide=wide, ty=ty):
+            op, pos = use
+            mn = "%s-%s" % (op, ty)
+            if op == "shl" and wide:
+                s.ins(mn, dst, K, CNT)
+            elif pos == "R":
+                s.ins(mn, dst, x, K)
+            else:
+                s.ins(mn, dst, K, x)
+
+        def name(u):
+            return u[0] + u[1]
+        n = 0
+        for u1 in uses:
+            for u2 in uses:
+                n += 1
+                cs = consts if thorough else sorted({-100000, consts[n % len(consts)]})
+                for c in cs:
+                    for comb in (("xor", "mul") if thorough else ("xor",)):
+                        def body(s, R, u1=u1, u2=u2, c=c, comb=comb, wide=wide, ty=ty):
+                            if wide and "shl" in (u1[0], u2[0]):
+                                s.ins("long-to-int", CNT, R.b)
+                            s.ins(cw, K, c)
+                            emit_use(s, R, u1, T1, R.a)
+                            emit_use(s, R, u2, T2, R.b)
+                            s.ins("%s-%s" % (comb, ty), RR, T1, T2)
+                            s.ins(rt, RR)
+                        P.append(Prog("B:kreuse.%s:%s,%s:%d:%s" % (ty, name(u1), name(u2), c, comb),
+                                      "B:kreuse.%s:%s" % (ty, name(u1)), T + T, T, nloc, body))
+        # three uses: t1 = a <op1> K ; t2 = b * K ; r = (t1 ^ t2) <op3> K
+        for u1 in uses:
+            for u3 in (("add", "R"), ("sub", "R"), ("xor", "R"), ("sub", "L")):
+                n += 1
+                cs = consts if thorough else sorted({-100000, consts[n % len(consts)]})
+                for c in cs:
+                    def body3(s, R, u1=u1, u3=u3, c=c, wide=wide, ty=ty):
+                        if wide and u1[0] == "shl":
+                            s.ins("long-to-int", CNT, R.b)
+                        s.ins(cw, K, c)
+                        emit_use(s, R, u1, T1, R.a)
+                        emit_use(s, R, ("mul", "R"), T2, R.b)
+                        s.ins("xor-%s" % ty, RR, T1, T2)
+                        emit_use(s, R, u3, RR, RR)
+                        s.ins(rt, RR)
+                    P.append(Prog("B:kreuse.%s:%s,mulR,%s:%d" % (ty, name(u1), name(u3), c),
+                                  "B:kreuse.%s:%s" % (ty, name(u1)), T + T, T, nloc, body3))
     return P
 
 
@@ -1406,7 +1478,7 @@ _CAT = {}
 def catalogue(thorough):
     c = _CAT.get(thorough)
     if c is None:
-        c = tier_a(thorough) + tier_b_special(thorough) + tier_b(thorough) + tier_c(thorough)
+        c = tier_a(thorough) + tier_b_special(thorough) + tier_b_kreuse(thorough) + tier_b(thorough) + tier_c(thorough)
         ids = set()
         for p in c:
             assert p.pid not in ids, p.pid
